@@ -32,8 +32,9 @@ SHRINK_BUDGET = 80
 RULE = (
     "one run = one seeded history of 1-6 operations (compress / decompress / decompress-to-scratch / in-place cycle, "
     "keep_original in {T,F}, 1-12 compression chunks with a short last chunk, cache 1-10, thread-pool order seeded) on a seeded "
-    "recording, each operation in its own process; up to two operations carry a fault (io_error, kill, torn write) placed "
-    "on an event of that operation's dry run, label class chosen uniformly (chunk writes, rename/move, unlinks, mkdir/copy); "
+    "recording, each operation in its own process; up to two operations carry a fault (io_error incl. persistent, kill, torn write, "
+    "interrupt = KeyboardInterrupt) placed on an event of that operation's dry run, label class chosen uniformly (chunk writes, reads of "
+    "compressed chunks, rename/move, unlinks, mkdir/copy); "
     "after every operation the durable state is compared with the model, every present entry path is opened and read with "
     "selectors at chunk boundaries and compared with the uncompressed original. distinct_nontrivial counts distinct "
     "(operation, keep_original, fault kind, fault site class, model state before) tuples among operations whose fault fired, "
@@ -42,13 +43,14 @@ RULE = (
 COMPONENTS = {
     "real": ["spikeglx.Reader.__init__/open/read/compress_file/decompress_file/decompress_to_scratch/_get_companion_file",
              "mtscomp.Writer/Reader/compress/decompress/check", "zlib", "real files in /dev/shm"],
-    "stub": ["mtscomp thread pool (inline, seeded completion order)", "tqdm", "mtscomp config path", "time.time in spikeglx"],
+    "stub": ["mtscomp thread pool (inline, seeded completion order)", "tqdm", "mtscomp config path",
+             "time module seen by the system (virtual clock: time()/sleep() simulated)", "os.pread in mtscomp (proxy that makes chunk reads events)"],
 }
 ASSUMPTIONS = [
     "process-level failure model: bytes handed to the kernel survive, user-space buffers and later steps do not; no power-loss (fsync) semantics",
     "atomicity is demanded for compress_file and decompress_to_scratch only (as the statement names them); a failed plain decompress may leave a partial .bin as long as the .cbin is intact",
     "the .ch header is not 'the final name': a dangling/orphan .ch is not counted",
-    "fault sites are Python-level file operations (open/write/tofile/close/rename/move/copy/unlink/mkdir); stores through np.memmap are not events",
+    "fault sites are Python-level file operations (open/write/tofile/close/read of compressed chunks/rename/move/copy/unlink/mkdir); stores through np.memmap and reads of the uncompressed source through np.memmap are not events",
 ]
 
 STEM = "rec_g0_t0.imec0"
